@@ -1,6 +1,7 @@
 package main
 
 import (
+	"sort"
 	"fmt"
 	"math/rand"
 )
@@ -44,8 +45,63 @@ func logStageBlame(c *Ctx, relevant ...string) func(t LogCase, impl, model Sexp)
 		if err != nil {
 			return true
 		}
-		return logImpl(t2, false).String() != mm.String()
+		if logImpl(t2, false).String() != mm.String() {
+			return true
+		}
+		return suffixBlame(c, rel, t)
 	}
+}
+
+// suffixBlame is the second classifier: a failure of the property's stages may need a state that only
+// another kind of stage produces (a parser error left behind by `| json`, say).  The stages up to the last
+// one that is NOT the property's business are evaluated by the implementation itself, its answer (lines
+// and full label sets, __error_details__ included) becomes the input, and the remaining stages — all the
+// property's own — are compared on it.  A disagreement there is the property's, with that input.
+func suffixBlame(c *Ctx, rel map[string]bool, t LogCase) bool {
+	k := -1
+	for i, st := range t.Stages {
+		if !rel[st.Kind] {
+			k = i
+		}
+	}
+	if k < 0 || k == len(t.Stages)-1 {
+		return false
+	}
+	tp := t
+	tp.Stages, tp.Limit = t.Stages[:k+1], -1
+	mq := &mockQuerier{capsLabel: tp.CapsLabel, capsLine: tp.CapsLine, recs: tp.Recs, shareAttrs: tp.Share}
+	data, err := evalQuery(mq, logQueryText(tp.Sel, tp.Stages), 1, 1<<62, 0, -1)
+	if err != nil {
+		return false
+	}
+	var recs []LRec
+	for _, s := range data.StreamsResult.Result {
+		for _, e := range s.Values {
+			rec := LRec{TS: int64(e.T), Body: e.V}
+			if msg, ok := s.Stream.Value["msg"]; (ok && msg != e.V) || (!ok && e.V != "") {
+				return false // the body label and the line went apart: not expressible as an input record
+			}
+			var keys []string
+			for l := range s.Stream.Value {
+				if l != "msg" {
+					keys = append(keys, l)
+				}
+			}
+			sort.Strings(keys)
+			for _, l := range keys {
+				rec.Attrs = append(rec.Attrs, [2]string{l, s.Stream.Value[l]})
+			}
+			recs = append(recs, rec)
+		}
+	}
+	sort.SliceStable(recs, func(i, j int) bool { return recs[i].TS < recs[j].TS })
+	ts := LogCase{Stages: append([]LStage{}, t.Stages[k+1:]...), Recs: recs, Limit: -1}
+	fixAmbiguity(ts.Stages)
+	mm, err := c.Drv.Ask(ts.Req())
+	if err != nil {
+		return false
+	}
+	return logImpl(ts, false).String() != mm.String()
 }
 
 // c08PartitionFails states C08's partition clause on the implementation alone: the label set an entry
